@@ -6,21 +6,9 @@ verus! {
 //@include lib/keys.rs
 
 //@include lib/specs_store.rs
-//@include lib/forest.rs
-//@include lib/forest_delete.rs
-//@include lib/forest_drivers.rs
-//@include lib/inv_specs.rs
-//@include lib/inv_store.rs
 
 impl Writer {
 //@extract src/writer.rs | impl<D: Distance> Writer<D> | add_item
-//@hint before#1 <<<Ok(())>>>
-        proof {
-            let v0 = old(wtxn).view(); let v1 = wtxn.view(); let i = self.index;
-            assert forall|cap: u64| #![trigger index_inv(v1, i, cap)] index_inv(v0, i, cap) && leaves_same_len(v1, i) implies index_inv(v1, i, cap) by {
-                lemma_inv_add(v0, v1, i, cap, item, v1[ikey(i, item)]);
-            }
-        }
 //@spec
     ensures
         other_indexes_unchanged(old(wtxn).view(), final(wtxn).view(), self.index),
@@ -32,20 +20,9 @@ impl Writer {
         r is Ok ==> vector@.len() == self.dimensions && final(wtxn).view() ==
             old(wtxn).view().insert(ikey(self.index, item), new_leaf(vector@)).insert(ukey(self.index, item), AVal::Unit),
         r matches Err(e) ==> (vector@.len() == self.dimensions ==> e is Heed),
-        // C01 (history induction): a successful call preserves the representation invariant that Writer::build requires and re-establishes
-        // (hypothesis: the new leaf has the common encoded length — a codec fact, C16)
-        r is Ok ==> forall|cap: u64| #![trigger index_inv(final(wtxn).view(), self.index, cap)] index_inv(old(wtxn).view(), self.index, cap) && leaves_same_len(final(wtxn).view(), self.index)
-            ==> index_inv(final(wtxn).view(), self.index, cap),
 //@end
 
 //@extract src/writer.rs | impl<D: Distance> Writer<D> | append_item
-//@hint before#2 <<<Ok(())>>>
-        proof {
-            let v0 = old(wtxn).view(); let v1 = wtxn.view(); let i = self.index;
-            assert forall|cap: u64| #![trigger index_inv(v1, i, cap)] index_inv(v0, i, cap) && leaves_same_len(v1, i) implies index_inv(v1, i, cap) by {
-                lemma_inv_add(v0, v1, i, cap, item, v1[ikey(i, item)]);
-            }
-        }
 //@spec
     ensures
         other_indexes_unchanged(old(wtxn).view(), final(wtxn).view(), self.index),
@@ -61,24 +38,9 @@ impl Writer {
         r is Ok ==> vector@.len() == self.dimensions && final(wtxn).view() ==
             old(wtxn).view().insert(ikey(self.index, item), new_leaf(vector@)).insert(ukey(self.index, item), AVal::Unit),
         r matches Err(e) ==> e is Heed || e is InvalidItemAppend || e is InvalidVecDimension,
-        // C01 (history induction): a successful call preserves the representation invariant that Writer::build requires and re-establishes
-        // (hypothesis: the new leaf has the common encoded length — a codec fact, C16)
-        r is Ok ==> forall|cap: u64| #![trigger index_inv(final(wtxn).view(), self.index, cap)] index_inv(old(wtxn).view(), self.index, cap) && leaves_same_len(final(wtxn).view(), self.index)
-            ==> index_inv(final(wtxn).view(), self.index, cap),
 //@end
 
 //@extract src/writer.rs | impl<D: Distance> Writer<D> | del_item
-//@hint before <<<Ok(true)>>>
-            proof {
-                let v0 = old(wtxn).view(); let v1 = wtxn.view(); let i = self.index;
-                assert forall|cap: u64| #![trigger index_inv(v1, i, cap)] index_inv(v0, i, cap) implies index_inv(v1, i, cap) by { lemma_inv_del(v0, v1, i, cap, item); }
-            }
-//@hint before <<<Ok(false)>>>
-            proof {
-                let v0 = old(wtxn).view(); let v1 = wtxn.view(); let i = self.index;
-                assert(v1 == v0);
-                assert forall|cap: u64| #![trigger index_inv(v1, i, cap)] index_inv(v0, i, cap) implies index_inv(v1, i, cap) by { }
-            }
 //@spec
     ensures
         other_indexes_unchanged(old(wtxn).view(), final(wtxn).view(), self.index),
@@ -89,9 +51,7 @@ impl Writer {
             // C19: deleting an absent item changes nothing
             Ok(false) => !old(wtxn).view().contains_key(ikey(self.index, item)) && final(wtxn).view() == old(wtxn).view(),
             Err(e) => e is Heed,
-        },
-        // C01 (history induction): the representation invariant that Writer::build requires is preserved
-        r is Ok ==> forall|cap: u64| #![trigger index_inv(final(wtxn).view(), self.index, cap)] index_inv(old(wtxn).view(), self.index, cap) ==> index_inv(final(wtxn).view(), self.index, cap),
+        }
 //@end
 
 //@extract src/writer.rs | impl<D: Distance> Writer<D> | contains_item
@@ -152,24 +112,6 @@ impl Writer {
 
 //@extract src/writer.rs | impl<D: Distance> Writer<D> | clear
 //@attr #[verifier::exec_allows_no_decreases_clause]
-//@hint before#2 <<<Ok(())>>>
-        proof {
-            let v1 = wtxn.view(); let i = self.index;
-            assert forall|k: AKey| k.index == i implies !v1.contains_key(k) by {
-                if v1.contains_key(k) {
-                    assert(old(wtxn).view().contains_key(k));
-                }
-            }
-            assert forall|cap: u64| #![trigger index_inv(v1, i, cap)] index_inv(v1, i, cap) by {
-                assert(!v1.contains_key(mkey(i)));
-                assert forall|x: u32| !v1.contains_key(tkey(i, x)) by { }
-                assert(leaves_same_len(v1, i)) by {
-                    assert forall|a: u32, b: u32, x: NodeBytes, y: NodeBytes| #![trigger x.aval(), y.aval(), ikey(i, a), ikey(i, b)]
-                        v1.contains_key(ikey(i, a)) && v1.contains_key(ikey(i, b)) && x.aval() == v1[ikey(i, a)] && y.aval() == v1[ikey(i, b)] implies x.blen() == y.blen() by { }
-                }
-                lemma_inv_no_forest(v1, i, cap);
-            }
-        }
 //@spec
     ensures
         other_indexes_unchanged(old(wtxn).view(), final(wtxn).view(), self.index),
@@ -177,8 +119,6 @@ impl Writer {
         r is Ok ==> forall|k: AKey| k.index == self.index ==> !final(wtxn).view().contains_key(k),
         // nothing is ever added
         forall|k: AKey| #[trigger] final(wtxn).view().contains_key(k) ==> old(wtxn).view().contains_key(k) && final(wtxn).view()[k] == old(wtxn).view()[k],
-        // C01 (history induction): a cleared index satisfies the representation invariant (its "no metadata" branch)
-        r is Ok ==> forall|cap: u64| #![trigger index_inv(final(wtxn).view(), self.index, cap)] index_inv(final(wtxn).view(), self.index, cap),
 //@loop 0
         invariant
             wtxn.view() == cursor.cur@,
